@@ -165,7 +165,7 @@ def run(k, n):
 
 
 def table():
-    rows = []
+    merged = {}
     for f in sorted(os.listdir(M)):
         if f.startswith("results_"):
             for l in open(os.path.join(M, f)):
@@ -173,10 +173,13 @@ def table():
                     sid, rest = l.split(" ", 1); r = json.loads(rest)
                 except Exception:
                     continue
-                meta = json.load(open(os.path.join(M, sid, "meta.json")))
-                det = [p for p, v in r.items() if isinstance(v, dict) and (v.get("rc") == 1 or any((v.get("by_property") or {}).values()))]
-                tool = [p for p, v in r.items() if isinstance(v, dict) and v.get("rc") == 2]
-                rows.append((sid, meta["file"], meta["line"], meta["op"], meta["old"][:70], meta["new"][:70], ",".join(det), ",".join(tool), r))
+                merged.setdefault(sid, {}).update({p: v for p, v in r.items() if isinstance(v, dict)})
+    rows = []
+    for sid, r in sorted(merged.items()):
+        meta = json.load(open(os.path.join(M, sid, "meta.json")))
+        det = sorted(p for p, v in r.items() if v.get("rc") == 1 or any((v.get("by_property") or {}).values()))
+        tool = sorted(p for p, v in r.items() if v.get("rc") == 2)
+        rows.append((sid, meta["file"], meta["line"], meta["op"], meta["old"][:70], meta["new"][:70], ",".join(det), ",".join(tool), r))
     nrej = sum(1 for x in os.listdir(M) if os.path.exists(os.path.join(M, x, "rejected")))
     print("%d mutants rejected by the build or the repository's tests; %d survive them; %d of those run" % (nrej, sum(1 for x in os.listdir(M) if os.path.exists(os.path.join(M, x, "meta.json"))), len(rows)))
     for r in rows:
